@@ -162,3 +162,15 @@ PROPS["C07"] = dict(
                "items) of the item reduction are verified; the general sort / "
                "group / merge path, recursive normalisation, the memoised "
                "normal form and hash are bounded")
+
+PROPS["C06"] = dict(
+    functions=[Q + "Quantity.allocate", Q + "Quantity.__mul__",
+               Q + "Quantity.__sub__", Q + "Quantity.__add__", Q + "Unit.__rmul__"],
+    standins=["C06"], level="other",
+    level_note="Quantity.allocate is verified from the source only for ratio "
+               "lists of length 1 (all values symbolic); the verification "
+               "conditions for length 2 and more (sorted rounding errors, "
+               "dispersal loop) are generated but were not decided by z3 / "
+               "cvc5 within the budget (nonlinear real arithmetic over the "
+               "quantum), so the dispersal and the deviation bound are "
+               "bounded (stand-in)")
